@@ -57,11 +57,13 @@ func c09Init() {
 	c09Data = map[string][]byte{
 		"h1": fill(32, 0x10), "h2": fill(32, 0x80), "h31": fill(31, 0x10), "s20": fill(20, 0x33),
 		"certA-DER": ca.Raw, "certA-PEM": pem.EncodeToMemory(&pem.Block{Type: "CERTIFICATE", Bytes: ca.Raw}),
-		"certB-DER": cb.Raw, "certC-DER": cc.Raw,
+		// PEM as tools write it: explanatory text before the armour (openssl pkcs12 "Bag Attributes")
+		"certA-PEM-with-preamble": append([]byte("Bag Attributes\n    friendlyName: verif\nsubject=CN = verif-ca-A\n\n"), pem.EncodeToMemory(&pem.Block{Type: "CERTIFICATE", Bytes: ca.Raw})...),
+		"certB-DER":               cb.Raw, "certC-DER": cc.Raw,
 	}
 	c09Types = []c09Type{
 		{"SHA256", signature.CERT_SHA256_GUID, []string{"h1", "h2", "h31", "certA-DER"}},
-		{"X509", signature.CERT_X509_GUID, []string{"certA-DER", "certA-PEM", "certB-DER", "certC-DER", "h1"}},
+		{"X509", signature.CERT_X509_GUID, []string{"certA-DER", "certA-PEM", "certA-PEM-with-preamble", "certB-DER", "certC-DER", "h1"}},
 		{"SHA1", signature.CERT_SHA1_GUID, []string{"s20", "h1"}},
 		{"UNKNOWN", util.EFIGUID{Data1: 0xdeadbeef, Data2: 1, Data3: 2, Data4: [8]byte{3, 4, 5, 6, 7, 8, 9, 10}}, []string{"h1"}},
 	}
@@ -374,6 +376,10 @@ func c09Check(db *signature.SignatureDatabase, op c09Op) (string, map[string]any
 }
 
 // c09Invariants are evaluated in every reached state.
+// c09InitialDup counts, per entry, how often the initial state already held it in one list
+// (a decoded stream may; the library's operations must not add to that).
+var c09InitialDup = map[string]int{}
+
 func c09Invariants(db *signature.SignatureDatabase) (string, map[string]any) {
 	view := c09ViewOf(db)
 	// queries agree with the view
@@ -404,11 +410,18 @@ func c09Invariants(db *signature.SignatureDatabase) (string, map[string]any) {
 			}
 		}
 	}
+	// every stored entry is found by the entry-level queries, under its own type only
+	for _, e := range view.entries {
+		var g1 bool
+		if p := hx.Try(func() { g1 = db.BytesExists(e.typ, e.owner, []byte(e.data)) }); p != nil || !g1 {
+			return "a stored entry is not found by the membership query", map[string]any{"data_len": len(e.data)}
+		}
+	}
 	for i, l := range *db {
 		seen := map[string]bool{}
 		for _, s := range l.Signatures {
 			k := string(refBE(s.Owner)) + string(s.Data)
-			if seen[k] {
+			if seen[k] && c09InitialDup[k] == 0 {
 				return "a list holds two identical entries", map[string]any{"list": i}
 			}
 			seen[k] = true
@@ -459,6 +472,24 @@ func c09Inits() []c09Init0 {
 		{"empty", func() *signature.SignatureDatabase { return signature.NewSignatureDatabase() }},
 		{"decoded(X509[certB],X509[certA],SHA256[h1,h2])", func() *signature.SignatureDatabase { return fromBytes(two) }},
 	}
+	// a list long enough for size-dependent code paths (ten hashes, not in sorted order)
+	var big []refesl.Entry
+	for i := 10; i >= 1; i-- {
+		o := ownerA
+		if i%3 == 0 {
+			o = ownerB
+		}
+		big = append(big, refesl.Entry{Owner: o, Data: fill(32, byte(0x10*i))})
+	}
+	bigStream := refesl.Encode([]refesl.List{refesl.Mk(refesl.SHA256, 48, big...), refesl.Mk(refesl.SHA256, 48, refesl.Entry{Owner: ownerA, Data: c09Data["h2"]})})
+	inits = append(inits, c09Init0{"decoded(SHA256[10 unsorted hashes],SHA256[h2])", func() *signature.SignatureDatabase { return fromBytes(bigStream) }})
+	// decoded streams a library-built database never has: an empty list with a real SignatureSize in
+	// front of the list holding the entries, and a list holding the same entry twice
+	emptyFirst := refesl.Encode([]refesl.List{refesl.Mk(refesl.SHA256, 48), refesl.Mk(refesl.SHA256, 48, refesl.Entry{Owner: ownerA, Data: c09Data["h1"]}, refesl.Entry{Owner: ownerB, Data: c09Data["h2"]})})
+	inits = append(inits, c09Init0{"decoded(SHA256[] with SignatureSize 48,SHA256[h1,h2])", func() *signature.SignatureDatabase { return fromBytes(emptyFirst) }})
+	dup := refesl.Encode([]refesl.List{refesl.Mk(refesl.SHA256, 48, refesl.Entry{Owner: ownerA, Data: c09Data["h1"]}, refesl.Entry{Owner: ownerB, Data: c09Data["h2"]}, refesl.Entry{Owner: ownerA, Data: c09Data["h1"]}),
+		refesl.Mk(refesl.X509, uint32(16+len(c09Data["certB-DER"])), refesl.Entry{Owner: ownerA, Data: c09Data["certB-DER"]})})
+	inits = append(inits, c09Init0{"decoded(SHA256[h1,h2,h1],X509[certB])", func() *signature.SignatureDatabase { return fromBytes(dup) }})
 	if b, err := os.ReadFile("/repo/tests/data/signatures/siglist/db.der.esl"); err == nil {
 		if _, _, rerr := refesl.Decode(b); rerr == nil {
 			inits = append(inits, c09Init0{"fixture db.der.esl", func() *signature.SignatureDatabase { return fromBytes(b) }})
@@ -525,6 +556,18 @@ func c09Run(c *hx.Ctx, tier, unit string) {
 	}
 	seen := map[string]bool{}
 	type node struct{ path []int }
+	c09InitialDup = map[string]int{}
+	for _, l := range *init0.mk() {
+		cnt := map[string]int{}
+		for _, s := range l.Signatures {
+			cnt[string(refBE(s.Owner))+string(s.Data)]++
+		}
+		for k, n := range cnt {
+			if n > 1 {
+				c09InitialDup[k] = n
+			}
+		}
+	}
 	// the initial state's invariants are checked by the unit of the first operation 0
 	if first == 0 {
 		db := init0.mk()
